@@ -129,11 +129,49 @@ theorem lex_gap_irrelevant (a b : LState) (ha : a.inString = false) (hb : b.inSt
   refine ⟨trivial, trivial, ?_, trivial⟩
   rw [← List.drop_drop, ← List.drop_drop, hr]  -- drop (w + n) = drop n ∘ drop w
 
+/-- THE AMOUNT OF WHITE SPACE BEFORE A TOKEN IS IRRELEVANT (including none): outside a string, two
+    lexer states whose unread sources are `g ++ X` and `g' ++ X` with `g`, `g'` white space only
+    and `X` empty or starting with a byte that begins a token, return the same token with the same
+    semantic value and leave the same unread source. -/
+theorem lex_white_gap_irrelevant (a b : LState) (g g' X : Bytes)
+    (ha : a.inString = false) (hb : b.inString = false)
+    (hg : ∀ w ∈ g, isWhite w = true) (hg' : ∀ w ∈ g', isWhite w = true)
+    (hX : ∀ c ∈ X.head?, isWhite c = false ∧ (c == 35) = false)
+    (hra : a.rest = g ++ X) (hrb : b.rest = g' ++ X) :
+    (lex a).1 = (lex b).1 ∧ (lex a).2.1 = (lex b).2.1 ∧ SameUnread (lex a).2.2 (lex b).2.2 := by
+  cases X with
+  | cons c X' =>
+    obtain ⟨hc, hh⟩ := hX c (by simp)
+    refine lex_gap_irrelevant a b ha hb c (g.length + 1) (g'.length + 1) ?_ ?_ ?_
+    · rw [hra]; simpa [next] using next_white g c X' 0 hg hc hh
+    · rw [hrb]; simpa [next] using next_white g' c X' 0 hg' hc hh
+    · rw [hra, hrb]; simp
+  | nil =>
+    simp only [List.append_nil] at hra hrb
+    have ea : lex a = commit a g.length { n := 0, token := some [], ty := Generated.Lalr.eof } := by
+      unfold lex
+      by_cases hge : g = []
+      · simp [hra, hge]
+      · have hemp : g.isEmpty = false := by cases g <;> simp_all
+        rw [hra]
+        simp only [hemp, ha, Bool.false_eq_true, if_false, next, next_white_end g 0 hg hge]
+        simp
+    have eb : lex b = commit b g'.length { n := 0, token := some [], ty := Generated.Lalr.eof } := by
+      unfold lex
+      by_cases hge : g' = []
+      · simp [hrb, hge]
+      · have hemp : g'.isEmpty = false := by cases g' <;> simp_all
+        rw [hrb]
+        simp only [hemp, hb, Bool.false_eq_true, if_false, next, next_white_end g' 0 hg' hge]
+        simp
+    rw [ea, eb]
+    simp [commit, SameUnread, hra, hrb, ha, hb]
+
 /-- ⟦full⟧ `lex_respace`: inserting or deleting white space or comments at a token boundary
     where maximal munch does not merge the neighbours leaves the token list unchanged.
     NOT PROVED as one statement about texts.  Proved parts: `ast_depends_on_tokens` (only tokens
     matter), `parse_depends_on_unread`, `lex_gap_irrelevant` (a gap may be replaced by any other
-    gap).  Missing: that each scanner stops at the first gap byte independently of what follows
+    gap), `lex_white_gap_irrelevant` (any amount of white space, including none, before a token).  Missing: that each scanner stops at the first gap byte independently of what follows
     it (a per-scanner prefix lemma) and the characterisation of merging pairs.  The model-free
     oracle `respace` (10 spacing schemes on every corpus / generated / mutant token list) stands
     in for it as a search, not as a proof. -/
@@ -187,17 +225,27 @@ theorem parse_error_offset_le (src : Bytes) :
   · exact ⟨by omega, h.2⟩
   · trivial
 
-/-- "the reported token fits before the reported offset", executable -/
-def tokenWithinOffset (src : Bytes) : Bool :=
-  match parse src with
-  | .reject _ _ s => decide ((parseError s).token.length ≤ (parseError s).offset)
-  | _ => true
-
-/-- the companion claim "the reported offset is at least the length of the reported token" is
-    FALSE of the code: for the one-byte source `\xff` the lexer consumes 1 byte but reports the
-    3-byte token U+FFFD (`l.token = string(r)` with r = utf8.RuneError). -/
-theorem error_token_longer_than_offset_counterexample : ¬ (∀ src : Bytes, tokenWithinOffset src = true) := by
-  intro h
-  exact absurd (h [0xff]) (by decide +kernel)
+/-- FOR EVERY BYTE STRING: the token of a reported `*ParseError` fits before its offset
+    (`len(Token) <= Offset`), so `Offset - len(Token)` is a position inside the source — for the
+    lexer as repaired (bfcffb3: the bytes of an invalid UTF-8 sequence, not U+FFFD, are the token;
+    b92b08f: NUL is tokInvalid).  Uses the table fact `simple_states_reduce`: a rejection happens
+    only after a token has been read. -/
+theorem parse_error_token_le (src : Bytes) :
+    match parse src with
+    | .reject _ _ s => (parseError s).token.length ≤ (parseError s).offset
+    | _ => True := by
+  have inv : (parse src).Ends2 TokInv Read := by
+    unfold parse start
+    refine run_invariant_look Parse.source TokInv Read ?_ ?_ ?_ simple_states_reduce _ _ _ _ ?_ ?_
+    · intro s hs; simp only [Parse.source]; exact lex_tokInv s hs
+    · intro r s hs; simp only [Parse.source]; split <;> exact hs
+    · intro r s hs; simp only [Parse.source]; split <;> exact hs
+    · simp [TokInv, LState.init]
+    · intro h; simp at h
+  revert inv
+  cases parse src <;> simp only [Outcome.Ends2] <;> intro h
+  · trivial
+  · exact parseError_token_le _ h.1 h.2
+  · trivial
 
 end Gojq.C09
